@@ -19,6 +19,7 @@ Skeleton (nested tuples; weight = number of nodes)
     ("inc", body)                            <%include file="/iN"/>  (body = body of the included file)
     ("inh", body)                            ${next.body()} in the base template; body = body of the inheriting template
     ("cb",)                                  ${CB(caller)}
+    ("rr",)                                  ${RR(context)}: re-entrant fault-free render() of the same Template
     ("py", content)                          <%call expr="SCF(context, A, i)">content</%call>: a Python function under
                                              runtime.supports_caller that writes <p>, probes, calls caller.body(), writes </p>
 
@@ -104,6 +105,8 @@ class Grammar:
                 out.append(("cb",))
             if self.on("textf"):
                 out.append(("textf",))
+            if self.on("rr"):
+                out.append(("rr",))
         # try: body non-empty
         if self.on("try"):
             for wb in range(1, w):
@@ -159,7 +162,7 @@ class Grammar:
         return self.blocks(w, (True, False, True, True))
 
 
-NODE_KINDS = ("text", "try", "for", "forp", "call", "textf", "inc", "inh", "cb", "py")
+NODE_KINDS = ("text", "try", "for", "forp", "call", "textf", "inc", "inh", "cb", "py", "rr")
 
 
 def kinds_of(x, acc=None):
@@ -227,6 +230,8 @@ class _Fin:
             return [["text", self.text()]]
         if k == "cb":
             return [["cb"]]
+        if k == "rr":
+            return [["rr"]]
         if k == "textf":
             return [["textf", self.probe(), self.text()]]
         if k == "try":
@@ -426,6 +431,8 @@ def p_stmt(s):
         return "${next.body()}"
     if k == "ob":
         return "${ob()}"
+    if k == "rr":
+        return "${RR(context)}"
     if k == "py":
         return '<%%call expr="SCF(context, P(%d, T), %d)">' % (s[1], s[2]) + p_block(s[3]) + "</%call>"
     raise ValueError(k)
